@@ -128,7 +128,15 @@ func (n *Node) DrawSpec(t *rapid.T, o GenOpts, flags map[string]bool) Spec {
 			s.Script.Next.Standby = nil
 		}
 		flags["param-change"] = true
-		if o.AllowRotate {
+		// Half of the changes derive from the parameters in force and alter ONE aspect (added after seeded change C06-o: a change of
+		// the certificate threshold alone was dropped by SetBFTParameters; fresh draws practically never keep everything else equal).
+		if rapid.Bool().Draw(t, "derivedChange") {
+			if d, kind := n.DerivedChange(t); d != nil {
+				s.Script.Next = d
+				flags["param-change-"+kind] = true
+			}
+		}
+		if o.AllowRotate && !flags["param-change-cert-only"] && !flags["param-change-precommit-only"] && !flags["param-change-one-weight"] {
 			switch rapid.IntRange(0, 3).Draw(t, "rotate") {
 			case 0:
 				// a validator update that only rotates generator keys: same validators in the same round-robin order, same
@@ -267,4 +275,104 @@ func (n *Node) rotationOnly(t *rapid.T) *NextParams {
 		}
 	}
 	return next
+}
+
+// sameAsCurrent rebuilds, as a NextParams value, exactly what is in force for the next height: validators in round-robin order,
+// weights, thresholds, standby generators and generator keys (nil when the order cannot be expressed).
+func (n *Node) sameAsCurrent() *NextParams {
+	height := n.Tip().Header.Height + 1
+	cur, err := n.CurrentParams(height)
+	if err != nil {
+		return nil
+	}
+	gens, err := n.Exec.GetGeneratorKeys(n.Store(), height)
+	if err != nil || len(gens) == 0 {
+		return nil
+	}
+	weight := map[int]uint64{}
+	for i, ix := range cur.Idx {
+		weight[ix] = cur.Weights[i]
+	}
+	next := &NextParams{Precommit: cur.Precommit, Cert: cur.Cert}
+	standbySeen := false
+	for _, g := range gens {
+		k := KeyByAddr(g.Address())
+		if k == nil {
+			return nil
+		}
+		if w := weight[k.Index]; w > 0 {
+			if standbySeen {
+				return nil
+			}
+			next.Idx = append(next.Idx, k.Index)
+			next.Weights = append(next.Weights, w)
+		} else {
+			standbySeen = true
+			next.Standby = append(next.Standby, k.Index)
+		}
+	}
+	if len(next.Idx) != len(cur.Idx) {
+		return nil // a BFT validator without a generator slot: not expressible
+	}
+	alt := n.AltGenAt(height)
+	for _, ix := range append(append([]int{}, next.Idx...), next.Standby...) {
+		if alt[ix] {
+			next.AltGen = append(next.AltGen, ix)
+		}
+	}
+	return next
+}
+
+// DerivedChange returns the parameters in force with exactly one aspect altered, and the name of that aspect.
+func (n *Node) DerivedChange(t *rapid.T) (*NextParams, string) {
+	next := n.sameAsCurrent()
+	if next == nil {
+		return nil, ""
+	}
+	var tot uint64
+	for _, w := range next.Weights {
+		tot += w
+	}
+	lo := tot/3 + 1
+	other := func(curV uint64, label string) (uint64, bool) {
+		if tot-lo == 0 {
+			return 0, false
+		}
+		v := rapid.Uint64Range(lo, tot-1).Draw(t, label)
+		if v >= curV {
+			v++
+		}
+		return v, true
+	}
+	switch rapid.SampledFrom([]string{"cert-only", "cert-only", "precommit-only", "one-weight"}).Draw(t, "derivedKind") {
+	case "cert-only":
+		v, ok := other(next.Cert, "derivedCert")
+		if !ok {
+			return nil, ""
+		}
+		next.Cert = v
+		return next, "cert-only"
+	case "precommit-only":
+		v, ok := other(next.Precommit, "derivedPrecommit")
+		if !ok {
+			return nil, ""
+		}
+		next.Precommit = v
+		return next, "precommit-only"
+	default:
+		j := rapid.IntRange(0, len(next.Weights)-1).Draw(t, "derivedWeightIdx")
+		next.Weights = append([]uint64{}, next.Weights...)
+		next.Weights[j] += rapid.Uint64Range(1, 2).Draw(t, "derivedWeightAdd")
+		tot = 0
+		for _, w := range next.Weights {
+			tot += w
+		}
+		if next.Precommit < tot/3+1 {
+			next.Precommit = tot/3 + 1
+		}
+		if next.Cert < tot/3+1 {
+			next.Cert = tot/3 + 1
+		}
+		return next, "one-weight"
+	}
 }
